@@ -459,10 +459,11 @@ class NameConverter(ast.NodeTransformer):
         if (
             self.in_comp_iter
             or any(isinstance(arg, ast.Starred) for arg in node.args)
-            or any(kw.arg is None for kw in node.keywords)
+            or node.keywords
         ):
-            # The shape of the call is not known statically, or temporaries
-            # cannot be used here: compute the lookup key at run time
+            # The shape of the call is not known statically, temporaries
+            # cannot be used here, or keyword arguments have to be bound like
+            # the entry point binds them: compute the lookup key at run time
             if self.dyn_mangled is None:  # pragma: no cover
                 return self.generic_visit(node)
             head = [
@@ -506,18 +507,6 @@ class NameConverter(ast.NodeTransformer):
             _make_lookup_call(i, arg) for i, arg in enumerate(node.args)
         ]
 
-        # type index for keyword arguments
-        type_parts += [
-            ast.Tuple(
-                elts=[
-                    ast.Constant(value=kw.arg),
-                    _make_lookup_call(kw.arg, kw.value),
-                ],
-                ctx=ast.Load(),
-            )
-            for kw in node.keywords
-        ]
-
         if cn:
             type_parts.insert(0, ast.Name(id=self.code_mangled, ctx=ast.Load()))
         method = ast.Subscript(
@@ -540,13 +529,7 @@ class NameConverter(ast.NodeTransformer):
                 ast.Name(id=f"{tmp}{i}", ctx=ast.Load())
                 for i, arg in enumerate(node.args)
             ],
-            keywords=[
-                ast.keyword(
-                    arg=kw.arg,
-                    value=ast.Name(id=f"{tmp}{kw.arg}", ctx=ast.Load()),
-                )
-                for kw in node.keywords
-            ],
+            keywords=[],
         )
         return ast.copy_location(old_node=node, new_node=new_node)
 
@@ -587,14 +570,34 @@ def adapt_function(fn, ovld, newname):
 def make_dynamic_call(ovld):
     """Call through the ovld's map with a lookup key computed at run time."""
 
-    def dynamic_call(code, *args, **kwargs):
+    def dynamic_call(code, /, *args, **kwargs):
         anal = ovld.argument_analysis
         values = args[1:] if anal.is_method else args
-        key = tuple(anal.lookup_for(i)(arg) for i, arg in enumerate(values))
-        key += tuple((k, anal.lookup_for(k)(v)) for k, v in kwargs.items())
+        key = [anal.lookup_for(i)(arg) for i, arg in enumerate(values)]
+        rest = dict(kwargs)
+        # Like the entry point: a keyword that names the next positional
+        # parameter is that positional argument...
+        n_strict = len(anal.strict_positional_required) + len(
+            anal.strict_positional_optional
+        )
+        named = anal.positional_required + anal.positional_optional
+        if len(anal.strict_positional_optional + anal.positional_optional) > 1:
+            # (with several optional positionals, all are strictly positional)
+            named = []
+        i = len(key)
+        while n_strict <= i < n_strict + len(named) and named[i - n_strict] in rest:
+            key.append(anal.lookup_for(i)(rest.pop(named[i - n_strict])))
+            i += 1
+        # ... and keyword-only arguments come in the order of the entry point,
+        # whatever their order in the call
+        order = anal.keyword_required + anal.keyword_optional
+        key += [
+            (k, anal.lookup_for(k)(rest.pop(k))) for k in order if k in rest
+        ]
+        key += [(k, anal.lookup_for(k)(v)) for k, v in rest.items()]
         if code is not None:
-            key = (code, *key)
-        return ovld.map[key](*args, **kwargs)
+            key.insert(0, code)
+        return ovld.map[tuple(key)](*args, **kwargs)
 
     return dynamic_call
 
